@@ -26,8 +26,8 @@ func init() {
 			"(T2) for every element name osm.OSM's element fields carry, and for no other name - the dispatch is on the element name itself: spellings that differ in case, surrounding space, prefix or suffix (Node, NODE, ` node`, nodes, xnode) are explored as names of their own and must yield nothing - every path of the streaming scanner's Scan that returns true has decoded (exactly one DecodeElement) into a fresh object of the field's own element type (whose XMLName, when declared, is that name) and holds that very object in the field its Object accessor returns; osmChange blocks are *OSM fields decoded by tags alone, so a repeated block is decoded into the same struct and its slice fields accumulate; " +
 			"(T3) a token that is not a start element takes every path back to the head of the loop that reads the next token; a start element named like a container of the three formats (derived from tables/osmxml.json: the document elements of OSM, Change, Diff and every element on the way from them to a list of objects - osm, osmChange, create, modify, delete, action, old, new) is walked into: the next token is read without decoding or skipping anything; every other start element that is no object has its content skipped (Decoder.Skip on the decoder the token came from, once, before the next token is read - encoding/xml's Unmarshal ignores an element no field claims together with its content, so whole-document decoding never sees what is nested in it), and when that Skip fails Scan returns false with the error kept in the field the error of Token is kept in; the one exception is the document element, which may be walked into whatever its name on a condition that holds for the first start element only (a scanner field that is zero in every scanner a constructor returns and non-zero after any start element was bound); every DecodeElement receives the start element bound in the same iteration on the decoder the token came from; " +
 			"(T4) Action.UnmarshalXML stores the Value of the start element's `type` attribute (and of no other attribute) into Action.Type and, for each of old, new, node, way, relation, decodes the child into a fresh object that the documented field of the action holds at the end of the iteration; node, way and relation children accumulate: when the action may already hold an OSM body (it is not known to be nil on the path) the body is kept and the list is the previous list extended by the child, a fresh body or list that drops the children decoded before is a violation (Action.MarshalXML writes all of them); Date parses the text it decoded, and time.Parse with its layout reads what Date.MarshalXML formats: the layouts are equal, or differ only by a fractional-seconds field right after the seconds of the writer's layout (package time, Parse: a fractional second after the seconds field is accepted even if the layout does not signify it); " +
-			"(T5) between DecodeElement and the return of Scan nothing is stored through the decoded object and it is handed to no code the analysis does not enter: the scanner yields what encoding/xml decoded, as a whole-document decode does. " +
-			"(T6) every DecodeElement reached inside a loop (the scanner, every UnmarshalXML) fills a value created in that loop iteration - DecodeElement keeps what the element does not carry, so a scratch value declared before the loop, partially reset, or retained makes an element inherit its predecessor's fields; what a custom decoder leaves in its receiver is not built on a package-level variable; a type with xml-tagged fields and its own UnmarshalXML stores each attribute named by a tag into the tagged field (and no other) and holds the decoded child of each element tag in the tagged field; a numeric or bool field filled from an attribute holds the result of strconv applied to the whole (trimmed) attribute text with base 10 and the field's bit size - a value computed by the decoder's own arithmetic is undecided, another base or bit size a violation. " +
+			"(T5) between DecodeElement and the return of Scan nothing is stored through the decoded object - except a new list made of exactly the elements the decoder left in the very slice field that is assigned (`x.F = append(T(nil), x.F...)`, make(len)+copy, nil when it is empty, directly or through a helper: the exact-size copy says what the document says) - and it is handed to no code the analysis does not enter: the scanner yields what encoding/xml decoded, as a whole-document decode does. " +
+			"(T6) every DecodeElement reached inside a loop (the scanner, every UnmarshalXML) fills a value created in that loop iteration - DecodeElement keeps what the element does not carry, so a scratch value declared before the loop, partially reset, or retained makes an element inherit its predecessor's fields; freshness covers what is reachable from the target: at the moment of the call every slice-, map- or pointer-typed field set in it (struct literal, earlier stores, nested structs, pointees) holds nil or a value created in the same iteration - encoding/xml appends into spare capacity without zeroing the re-exposed element and assigns only the attributes present, so `&T{F: s.buf[:0]}` (length 0, capacity kept) lets the i-th child inherit from the i-th child of an earlier element; built on receiver or package-level storage is a violation, unknown origin undecided; what a custom decoder leaves in its receiver is not built on a package-level variable; a type with xml-tagged fields and its own UnmarshalXML stores each attribute named by a tag into the tagged field (and no other) and holds the decoded child of each element tag in the tagged field; a numeric or bool field filled from an attribute holds the result of strconv applied to the whole (trimmed) attribute text with base 10 and the field's bit size - a value computed by the decoder's own arithmetic is undecided, another base or bit size a violation. " +
 			"(T7) the scanner reads tokens from a decoder configured like the one xml.Unmarshal builds: created by xml.NewDecoder, and on no path of package osmxml is Strict, AutoClose, Entity, DefaultSpace or CharsetReader of an *xml.Decoder given a non-default value (lenient tokenising closes elements early and accepts what the strict decoder rejects; a CharsetReader makes the scanner accept encodings whole-document decoding rejects - reported as a violation too, since scanning then yields objects where xml.Unmarshal returns an error); a decoder built by xml.NewTokenDecoder or handed to code that is not entered is undecided. " +
 			"T2-T7 are decided on the behaviour observed by an abstract interpreter that explores Scan / UnmarshalXML, with everything they call, once per element name (and attribute name). " +
 			"NOT decided: everything encoding/xml itself does (attribute order, whitespace, comments, entities, self-closing tags, unknown names are its documented behaviour), equality of decoded values, names outside the table (library extensions are covered by C04's symmetry rules only), and behaviour that only shows from the second iteration of a loop on.",
@@ -65,8 +65,8 @@ func init() {
 			{Name: "action-no-relation", File: "diff.go", Find: "\t\tcase \"relation\":\n\t\t\tr := &Relation{}\n\t\t\tif err := d.DecodeElement(&r, &start); err != nil {\n\t\t\t\treturn err\n\t\t\t}\n\t\t\tif a.OSM == nil {\n\t\t\t\ta.OSM = &OSM{}\n\t\t\t}\n\t\t\ta.OSM.Relations = append(a.OSM.Relations, r)\n", Replace: "", ExpectRule: "T4", ExpectConstruct: "relation"},
 			{Name: "action-type-wrong-attr", File: "diff.go", Find: "if attr.Name.Local == \"type\" {", Replace: "if attr.Name.Local == \"action\" {", ExpectRule: "T4", ExpectConstruct: "attr@"},
 			{Name: "date-parse-other-layout", File: "note.go", Find: "d.Time, err = time.Parse(dateLayout, s)", Replace: "d.Time, err = time.Parse(time.RFC3339, s)", ExpectRule: "T4", ExpectConstruct: "layout@Date"},
-		}, append(append([]core.Mutant{}, append(append(c03Mutants2List(), c03FreshMutants...), c03DecoderMutants...)...), append(append(append([]core.Mutant{}, c03Mutants5...), c03ScanMutants...), c03ActionMutants...)...)...),
-		Benign: append(append([]core.Mutant{}, append(append(append([]core.Mutant{}, c03Benign...), c03Benign2List()...), append(append([]core.Mutant{}, c03FreshBenign...), c03DecoderBenign...)...)...), append(append(append([]core.Mutant{}, c03Benign5...), c03ScanBenign...), c03ActionBenign...)...),
+		}, append(append([]core.Mutant{}, append(append(c03Mutants2List(), c03FreshMutants...), c03DecoderMutants...)...), append(append(append([]core.Mutant{}, c03Mutants5...), c03ScanMutants...), append(append([]core.Mutant{}, c03ActionMutants...), c03DeepMutants...)...)...)...),
+		Benign: append(append([]core.Mutant{}, append(append(append([]core.Mutant{}, c03Benign...), c03Benign2List()...), append(append([]core.Mutant{}, c03FreshBenign...), c03DecoderBenign...)...)...), append(append(append([]core.Mutant{}, c03Benign5...), c03ScanBenign...), append(append([]core.Mutant{}, c03ActionBenign...), c03DeepBenign...)...)...),
 	})
 }
 
